@@ -62,12 +62,14 @@ def render_lit(rnd, s, stop):
         c = s[i]
         special = c in META or c in stop
         mode = rnd.random()
+        if rnd.random() < .08: out.append(rnd.choice(["''", '""']))      # an empty quoted string is the empty string
         if c == "'": out.append("\\'"); i += 1; continue      # quotes nest: inside "..." a ' still opens a quote
         if mode < .25 and "'" not in s[i:i + 2]:
             n = rnd.randint(1, 2); out.append("'" + s[i:i + n] + "'"); i += n; continue
         if mode < .4 and special and c not in '"\\$':
             out.append('"' + c + '"'); i += 1; continue
         out.append('\\' + c if (special or rnd.random() < .1) else c); i += 1
+    if rnd.random() < .08: out.append(rnd.choice(["''", '""']))
     return ''.join(out)
 
 def render(rnd, t, stop=''):
